@@ -10,6 +10,7 @@ import (
 
 	cfg "github.com/lianxiangcloud/linkchain/config"
 	"github.com/lianxiangcloud/linkchain/libs/common"
+	"github.com/lianxiangcloud/linkchain/libs/crypto"
 	lktypes "github.com/lianxiangcloud/linkchain/libs/cryptonote/types"
 	dbm "github.com/lianxiangcloud/linkchain/libs/db"
 	"github.com/lianxiangcloud/linkchain/types"
@@ -36,6 +37,10 @@ type ChainExec struct {
 	Wrap func(name string, db dbm.DB) dbm.DB
 	// PartSize of stored part sets (0 = default)
 	PartSize int
+	// Created: the DISTINCT addresses the `create` ops aim at (whether or not they succeed), in order of first appearance
+	Created []common.Address
+	// Ext: the chain was built with the extended contract set (`chain ... code=2`): Mover, beneficiaries
+	Ext bool
 }
 
 // ContractAddr is the address of the test contract present at genesis when `chain ... code=1`.
@@ -204,6 +209,11 @@ func (c *ChainExec) Exec(op string) string {
 		if argI(toks, "code", 0) == 1 {
 			o.Code = map[common.Address][]byte{ContractAddr: TestContract}
 		}
+		if argI(toks, "code", 0) == 2 { // the extended contract set: the test contract and the value-moving contract
+			o.Code = map[common.Address][]byte{ContractAddr: TestContract, MoverAddr: MoverCode}
+			c.Ext = true
+		}
+		o.Records = argI(toks, "rec", 0) == 1
 		o.Wrap = c.Wrap
 		o.PartSize = c.PartSize
 		s, err := NewStack(o)
@@ -361,6 +371,118 @@ func (c *ChainExec) Exec(op string) string {
 			}
 		}
 		return c.admit(toks[0], tx, err)
+	case "create": // contract creation from a transaction (To = nil) with init code of a kind, with or without value
+		from := c.Accts[argI(toks, "from", 0)]
+		kind := argS(toks, "kind")
+		code := InitCode(kind)
+		if code == nil {
+			return "bad-kind"
+		}
+		nonce := uint64(argI(toks, "nonce", 0))
+		tx := types.NewContractCreation(nonce, units(argI(toks, "value", 0)), uint64(argI(toks, "gas", 1000000)), gasPrice(toks), code)
+		err := tx.Sign(types.GlobalSTDSigner, from.Key)
+		// the creation address is a function of (sender, nonce, init code): a second `create` with the same three aims at the SAME
+		// address and must not be observed (and summed) twice
+		if addr := crypto.CreateAddress(from.Addr, nonce, code); !containsAddr(c.Created, addr) {
+			c.Created = append(c.Created, addr)
+		}
+		return c.admit("create", tx, err)
+	case "mcall": // call of the value-moving contract: m=<Mover op> to=a<i>|b<k>|m|c<j> (account, beneficiary, Mover itself, created contract j); tok=1: a token transaction
+		from := c.Accts[argI(toks, "from", 0)]
+		target, ok := c.target(argS(toks, "to"))
+		if !ok {
+			return "bad-target"
+		}
+		dest := MoverAddr
+		if j := argI(toks, "at", -1); j >= 0 { // call the Mover code a `create kind=ok` deployed
+			if int(j) >= len(c.Created) {
+				return "bad-target"
+			}
+			dest = c.Created[j]
+		}
+		data := MoverCallData(byte(argI(toks, "m", 0)), target)
+		var tx types.Tx
+		var err error
+		if argI(toks, "tok", 0) == 1 {
+			t := types.NewTokenTransaction(c.Tok, uint64(argI(toks, "nonce", 0)), dest, units(argI(toks, "value", 0)), uint64(argI(toks, "gas", 1000000)), gasPrice(toks), data)
+			err = t.Sign(types.GlobalSTDSigner, from.Key)
+			tx = t
+		} else {
+			t, e := pricedTx(uint64(argI(toks, "nonce", 0)), dest, units(argI(toks, "value", 0)), uint64(argI(toks, "gas", 1000000)), gasPrice(toks), data)
+			if e == nil {
+				e = t.Sign(types.GlobalSTDSigner, from.Key)
+			}
+			tx, err = t, e
+		}
+		return c.admit("mcall", tx, err)
+	case "calltok": // token transaction to the genesis test contract (one byte of calldata): a contract call carrying TOKEN value
+		from := c.Accts[argI(toks, "from", 0)]
+		tx := types.NewTokenTransaction(c.Tok, uint64(argI(toks, "nonce", 0)), ContractAddr, units(argI(toks, "value", 0)), uint64(argI(toks, "gas", 1000000)), gasPrice(toks),
+			[]byte{byte(argI(toks, "c", 1))})
+		err := tx.Sign(types.GlobalSTDSigner, from.Key)
+		return c.admit("calltok", tx, err)
+	case "xferx": // plain transfer to an address that is not a genesis account: to=b<k>|m|c<j> (gas: the exact transfer gas unless gas= is given)
+		from := c.Accts[argI(toks, "from", 0)]
+		target, ok := c.target(argS(toks, "to"))
+		if !ok {
+			return "bad-target"
+		}
+		amount := units(argI(toks, "amount", 1))
+		gas := types.CalNewAmountGas(amount, types.EverLiankeFee)
+		if g := argI(toks, "gas", -1); g >= 0 {
+			gas = uint64(g)
+		}
+		tx, err := pricedTx(uint64(argI(toks, "nonce", 0)), target, amount, gas, gasPrice(toks), nil)
+		if err == nil {
+			err = tx.Sign(types.GlobalSTDSigner, from.Key)
+		}
+		return c.admit("xferx", tx, err)
+	case "uxbad": // confidential transactions of a shape the semantic check must refuse: shape=ainaout (account input with an account
+		// output), aout2 (two account outputs), cout (an account output to a contract)
+		var tx *types.UTXOTransaction
+		var err error
+		switch argS(toks, "shape") {
+		case "ainaout":
+			from, w := c.Accts[argI(toks, "from", 0)], c.Wallets[argI(toks, "w", 0)]
+			amount := units(argI(toks, "amount", 1))
+			fee := c.fee(types.CalNewAmountGas(new(big.Int).Mul(amount, big.NewInt(2)), types.EverLiankeFee))
+			tx, err = BuildAin(from, uint64(argI(toks, "nonce", 0)), new(big.Int).Add(new(big.Int).Mul(amount, big.NewInt(2)), fee),
+				[]types.DestEntry{w.Dest(amount), &types.AccountDestEntry{To: c.Accts[argI(toks, "to", 1)].Addr, Amount: amount}}, c.LKC)
+		case "aout2", "cout":
+			w := c.Wallets[argI(toks, "w", 0)]
+			k := int(argI(toks, "in", 0))
+			if k < 0 || k >= len(w.Outs) {
+				return "noinput"
+			}
+			in := *w.Outs[k]
+			amount := units(argI(toks, "amount", 1))
+			var dests []types.DestEntry
+			total := new(big.Int).Set(amount)
+			if argS(toks, "shape") == "aout2" {
+				dests = append(dests, &types.AccountDestEntry{To: c.Accts[0].Addr, Amount: amount}, &types.AccountDestEntry{To: c.Accts[1].Addr, Amount: amount})
+				total.Add(total, amount)
+			} else {
+				dests = append(dests, &types.AccountDestEntry{To: ContractAddr, Amount: amount, Data: []byte{1}})
+			}
+			change := new(big.Int).Sub(in.Amount, total)
+			change.Sub(change, c.fee(types.CalNewAmountGas(total, types.EverLiankeFee)))
+			change.Sub(change, c.fee(c.S.App.GetUTXOGas()))
+			if change.Sign() <= 0 {
+				return "build=funds"
+			}
+			dests = append(dests, w.Dest(change))
+			tx, err = BuildUin(w, []*OwnedOut{&in}, dests, c.LKC, c.Accts[0].Addr)
+			if err == nil && argS(toks, "shape") == "cout" {
+				err = tx.Sign(types.GlobalSTDSigner, c.Accts[0].Key)
+			}
+		default:
+			return "bad-shape"
+		}
+		return c.admit("uxbad", tx, err)
+	case "balx":
+		return c.balancesX()
+	case "recs": // the application's own audit log of block h, netted per observed bucket
+		return c.recordsLine(uint64(argI(toks, "h", 0)))
 	case "replay": // submit an earlier transaction object again
 		id := int(argI(toks, "id", 0))
 		if id < 0 || id >= len(c.Txs) {
@@ -554,4 +676,195 @@ func (c *ChainExec) balances() string {
 	return fmt.Sprintf("a=%s t=%s f=%s z=%s w=%s pool=%s supply=%s toksupply=%s", strings.Join(as, ","), strings.Join(ts, ","),
 		ToUnits(st.GetBalance(cfg.ContractFoundationAddr)), ToUnits(new(big.Int).Add(st.GetBalance(common.EmptyAddress), st.GetBalance(ContractAddr))),
 		strings.Join(ps, "|"), ToUnits(pool), ToUnits(total), ToUnits(tok))
+}
+
+// target resolves a<i> (account), b<k> (beneficiary), m (the Mover), c<j> (the address of the j-th `create`), t (the test contract).
+func (c *ChainExec) target(s string) (common.Address, bool) {
+	if s == "m" {
+		return MoverAddr, true
+	}
+	if s == "t" {
+		return ContractAddr, true
+	}
+	if len(s) < 2 {
+		return common.Address{}, false
+	}
+	i, err := strconv.Atoi(s[1:])
+	if err != nil || i < 0 {
+		return common.Address{}, false
+	}
+	switch s[0] {
+	case 'a':
+		if i < len(c.Accts) {
+			return c.Accts[i].Addr, true
+		}
+	case 'b':
+		if i < len(BenAddrs) {
+			return BenAddrs[i], true
+		}
+	case 'c':
+		if i < len(c.Created) {
+			return c.Created[i], true
+		}
+	}
+	return common.Address{}, false
+}
+
+// extAddrs: the addresses observed in addition to the accounts: foundation, zero, coinbase, test contract, Mover,
+// beneficiaries, every address a `create` op aimed at.
+func (c *ChainExec) extAddrs() []common.Address {
+	out := []common.Address{MoverAddr}
+	out = append(out, BenAddrs...)
+	return append(out, c.Created...)
+}
+
+// balancesX is `bal` with every further address a test contract can pay: m= the Mover (native,token), b= the beneficiaries
+// (native/token each), c= every `create` target; supply and toksupply include them.
+func (c *ChainExec) balancesX() string {
+	st := c.S.App.GetLatestStateDB()
+	var as, ts, ps, bs, cs []string
+	for _, a := range c.Accts {
+		as = append(as, ToUnits(st.GetBalance(a.Addr)))
+		ts = append(ts, ToUnits(st.GetTokenBalance(a.Addr, c.Tok)))
+	}
+	for _, w := range c.Wallets {
+		var outs []string
+		for _, o := range w.Outs {
+			if !o.Spent && o.Token == c.LKC {
+				outs = append(outs, ToUnits(o.Amount))
+			}
+		}
+		sort.Strings(outs)
+		ps = append(ps, strings.Join(outs, "+"))
+	}
+	total, pool, tok := c.Supply()
+	for _, a := range c.extAddrs() {
+		total.Add(total, st.GetBalance(a))
+		tok.Add(tok, st.GetTokenBalance(a, c.Tok))
+	}
+	for _, b := range BenAddrs {
+		bs = append(bs, ToUnits(st.GetBalance(b))+"/"+ToUnits(st.GetTokenBalance(b, c.Tok)))
+	}
+	for _, a := range c.Created {
+		cs = append(cs, ToUnits(st.GetBalance(a)))
+	}
+	ztok := new(big.Int).Add(st.GetTokenBalance(common.EmptyAddress, c.Tok), st.GetTokenBalance(ContractAddr, c.Tok))
+	return fmt.Sprintf("a=%s t=%s f=%s z=%s zt=%s m=%s/%s b=%s c=%s w=%s pool=%s supply=%s toksupply=%s", strings.Join(as, ","), strings.Join(ts, ","),
+		ToUnits(st.GetBalance(cfg.ContractFoundationAddr)), ToUnits(new(big.Int).Add(st.GetBalance(common.EmptyAddress), st.GetBalance(ContractAddr))), ToUnits(ztok),
+		ToUnits(st.GetBalance(MoverAddr)), ToUnits(st.GetTokenBalance(MoverAddr, c.Tok)), strings.Join(bs, ","), strings.Join(cs, ","),
+		strings.Join(ps, "|"), ToUnits(pool), ToUnits(total), ToUnits(tok))
+}
+
+// recordsLine nets the balance records the application stored for block h per observed bucket (native coin and the test
+// token): a=accounts t=token of accounts f=foundation z=zero address + test contract zt=their token m=Mover b=beneficiaries
+// c=created p=confidential pool (PrivateAddress side) mint=/burn= value from / to NoAddress, unk= records naming an address
+// or a token that is not observed.  A fee record counts as native coin whatever token id it carries.
+func (c *ChainExec) recordsLine(h uint64) string {
+	bbr := c.S.BRS.Get(h)
+	if bbr == nil {
+		return "norecords"
+	}
+	type key struct {
+		a   common.Address
+		tok bool
+	}
+	net := map[key]*big.Int{}
+	add := func(a common.Address, tok bool, v *big.Int) {
+		k := key{a, tok}
+		if net[k] == nil {
+			net[k] = new(big.Int)
+		}
+		net[k].Add(net[k], v)
+	}
+	pool, mint, burn := new(big.Int), new(big.Int), new(big.Int)
+	unk, n, feetok := 0, 0, 0
+	known := map[common.Address]bool{cfg.ContractFoundationAddr: true, common.EmptyAddress: true, ContractAddr: true, c.coin: true}
+	for _, a := range c.Accts {
+		known[a.Addr] = true
+	}
+	for _, a := range c.extAddrs() {
+		known[a] = true
+	}
+	for _, tr := range bbr.TxRecords {
+		for _, r := range tr.Records {
+			n++
+			if r.Amount == nil {
+				unk++
+				continue
+			}
+			tok := r.TokenID == c.Tok
+			if !tok && r.TokenID != c.LKC {
+				unk++
+				continue
+			}
+			if r.Type == types.TxFee && tok {
+				// the fee of a token transaction is paid in the native coin; its record carries the token's id
+				tok = false
+				feetok++
+			}
+			side := func(a common.Address, typ uint32, v *big.Int) {
+				switch typ {
+				case types.AccountAddress:
+					if !known[a] {
+						unk++
+					}
+					add(a, tok, v)
+				case types.PrivateAddress:
+					if !tok {
+						pool.Add(pool, v)
+					}
+				default:
+					if v.Sign() < 0 {
+						mint.Sub(mint, v)
+					} else {
+						burn.Add(burn, v)
+					}
+				}
+			}
+			side(r.From, r.FromAddressType, new(big.Int).Neg(r.Amount))
+			side(r.To, r.ToAddressType, r.Amount)
+		}
+	}
+	get := func(a common.Address, tok bool) *big.Int {
+		if v := net[key{a, tok}]; v != nil {
+			return v
+		}
+		return new(big.Int)
+	}
+	var as, ts, bs, cs []string
+	for _, a := range c.Accts {
+		as = append(as, ToUnits(get(a.Addr, false)))
+		ts = append(ts, ToUnits(get(a.Addr, true)))
+	}
+	for _, b := range BenAddrs {
+		bs = append(bs, ToUnits(get(b, false))+"/"+ToUnits(get(b, true)))
+	}
+	for _, a := range c.Created {
+		cs = append(cs, ToUnits(get(a, false)))
+	}
+	z := new(big.Int).Add(get(common.EmptyAddress, false), get(ContractAddr, false))
+	zt := new(big.Int).Add(get(common.EmptyAddress, true), get(ContractAddr, true))
+	return fmt.Sprintf("a=%s t=%s f=%s z=%s zt=%s m=%s/%s b=%s c=%s p=%s mint=%s burn=%s unk=%d", strings.Join(as, ","), strings.Join(ts, ","),
+		ToUnits(get(cfg.ContractFoundationAddr, false)), ToUnits(z), ToUnits(zt), ToUnits(get(MoverAddr, false)), ToUnits(get(MoverAddr, true)),
+		strings.Join(bs, ","), strings.Join(cs, ","), ToUnits(pool), ToUnits(mint), ToUnits(burn), unk) + c.recNote(n, feetok)
+}
+
+// RecNotes, if true, appends to the `recs` answer the number of records and of fee records that carry a token id (not compared
+// with the model by default: the record count depends on VM-internal bookkeeping).
+var RecNotes = false
+
+func (c *ChainExec) recNote(n, feetok int) string {
+	if !RecNotes {
+		return ""
+	}
+	return fmt.Sprintf(" n=%d feetok=%d", n, feetok)
+}
+
+func containsAddr(as []common.Address, a common.Address) bool {
+	for _, x := range as {
+		if x == a {
+			return true
+		}
+	}
+	return false
 }
